@@ -1,11 +1,103 @@
 import TrustVerif.Lemmas.C14
 
+/-!
+# C14 — the language server keeps the same document text as the editor
+
+Property theorems only.  `Model/C14.lean` mirrors `position_to_offset`, `offset_to_line_col`,
+`apply_content_changes` and the text/version part of `did_open`/`did_change`/`did_close`
+(`Impl`); `Spec` is the editor: the document as UTF-16 code units, LSP lines (`\n`, `\r\n`, `\r`),
+a change replaces the unit range `[start, end)`.
+
+Guard of the agreement theorems: the buffers addressed by ranged changes use `\n` / `\r\n` line
+ends (`Spec.lfOrCrlf`, `Spec.lfChanges`, `Spec.lfHistory`).  It is necessary:
+`c14_counterexample_lone_cr` (known finding C14-lone-cr).
+-/
 namespace TrustVerif.C14
 
-/-- placeholder while the pipeline is wired -/
+/-- **One incremental change (clause "the text the server analyses equals the text the editor
+holds", single step).**  For every text `s`, every inserted text `t` and every range: if the
+editor can produce the change on its UTF-16 buffer (`Spec.applyChange … = some us'`: both
+positions exist, are not inside a surrogate pair, start ≤ end) then `apply_content_changes`
+accepts it, does not panic, and the server's new text encodes to exactly the editor's new
+buffer.  Unbounded in text length, line count, characters (ASCII … astral plane) and positions. -/
+theorem c14_apply (s t : List Char) (sl sc el ec : Nat) (us' : List Nat)
+    (hlf : Spec.lfOrCrlf (encode16 s) = true)
+    (h : Spec.applyChange (encode16 s) (.range sl sc el ec (encode16 t)) = some us') :
+    ∃ s', Impl.applyChange s (.range sl sc el ec t) = .ok s' ∧ encode16 s' = us' :=
+  applyChange_range_spec s t sl sc el ec us' hlf h
+
+/-- **A whole `didChange` notification (multi-change, ranged and full-text changes mixed):** each
+change is resolved on the text produced by the previous one, on both sides; the results agree. -/
+theorem c14_changes (s : List Char) (cs : List Impl.Change) (us' : List Nat)
+    (hlf : Spec.lfChanges (encode16 s) (cs.map encodeChange) = true)
+    (h : Spec.applyChanges (encode16 s) (cs.map encodeChange) = some us') :
+    ∃ s', Impl.applyContentChanges s cs = .ok s' ∧ encode16 s' = us' :=
+  applyContentChanges_spec cs s us' hlf h
+
+/-- **Every history (clause "for every document and every sequence of incremental or full change
+notifications").**  For every sequence of `didOpen` / `didChange` / `didClose` notifications an
+editor can produce (`Spec.run … = some ed`), starting from an untracked document, the server's
+`Document` agrees with the editor's copy after the whole sequence — and, since every prefix of an
+editor history is an editor history, after every notification: same text, same version, open;
+closed on the server when the editor has closed it.  Induction over the history, no bound. -/
+theorem c14_history (evs : List Impl.Event) (ed : Option Spec.Doc)
+    (hlf : Spec.lfHistory none (evs.map encodeEvent) = true)
+    (h : Spec.run none (evs.map encodeEvent) = some ed) :
+    Agree (Impl.run none evs) ed :=
+  run_agree evs none none ed (by intro d hd; cases hd) hlf h
+
+/-- The same from any agreeing pair of states (so it composes along a session). -/
+theorem c14_history_from (evs : List Impl.Event) (srv : Option Impl.Doc) (ed ed' : Option Spec.Doc)
+    (hag : Agree srv ed)
+    (hlf : Spec.lfHistory ed (evs.map encodeEvent) = true)
+    (h : Spec.run ed (evs.map encodeEvent) = some ed') :
+    Agree (Impl.run srv evs) ed' :=
+  run_agree evs srv ed ed' hag hlf h
+
+/-- `Agree` on UTF-16 units is equality of texts: the encoding is injective
+(`decode16 ∘ encode16 = id`), so "encodes to the editor's buffer" means "is the editor's text". -/
+theorem c14_encode16_injective (s : List Char) : decode16 (encode16 s) = s :=
+  decode16_encode16 s
+
+/-- **Round trip (clause "converting an offset to a position and back is the identity on character
+boundaries, including lines containing non-ASCII and astral-plane characters").**  For every text
+split `pre ++ post` — the byte offset `len8 pre` is exactly a character boundary — converting the
+offset with `offset_to_line_col` and the result back with `position_to_offset` returns the offset.
+No guard: holds for every text, `\r` included. -/
+theorem c14_roundtrip (pre post : List Char) :
+    Impl.positionToOffset (pre ++ post)
+      (Impl.offsetToLineCol (pre ++ post) (len8 pre)).1
+      (Impl.offsetToLineCol (pre ++ post) (len8 pre)).2 = some (len8 pre) := by
+  have h := roundtrip_aux pre post 0 0 0
+  simpa [Impl.positionToOffset, Impl.offsetToLineCol] using h
+
+/-- **The guard is necessary (known finding C14-lone-cr).**  A lone `\r` ends a line for the editor
+(LSP 3.17) but not for the server: on `"a\rb"` the editor's insertion at line 1, column 0 is
+rejected by `apply_content_changes` (line 1 does not exist), so the texts diverge. -/
 theorem c14_counterexample_lone_cr :
     Impl.applyChange ['a', '\r', 'b'] (.range 1 0 1 0 ['X']) = .rejected ∧
     Spec.applyChange (encode16 ['a', '\r', 'b']) (.range 1 0 1 0 (encode16 ['X'])) =
-      some (encode16 ['a', '\r', 'X', 'b']) := by decide
+      some (encode16 ['a', '\r', 'X', 'b']) ∧
+    Spec.lfOrCrlf (encode16 ['a', '\r', 'b']) = false := by decide
+
+/-! ## Non-vacuity: the hypotheses are satisfiable on the interesting inputs -/
+
+/-- `c14_apply` on the witness of the repaired defect: `😀x`, insert `y` at (0,2). -/
+example :
+    Spec.lfOrCrlf (encode16 ['😀', 'x']) = true ∧
+    Spec.applyChange (encode16 ['😀', 'x']) (.range 0 2 0 2 (encode16 ['y'])) =
+      some (encode16 ['😀', 'y', 'x']) ∧
+    Impl.applyChange ['😀', 'x'] (.range 0 2 0 2 ['y']) = .ok ['😀', 'y', 'x'] := by decide
+
+/-- `c14_changes` / `c14_history` on a CRLF document with an astral character and a two-change
+notification that crosses a line end. -/
+example :
+    let evs : List Impl.Event :=
+      [.didOpen 1 ['a', '😀', '\r', '\n', 'b'],
+       .didChange 2 [.range 0 3 1 0 ['é'], .range 0 4 0 5 []],
+       .didClose]
+    Spec.lfHistory none (evs.map encodeEvent) = true ∧
+    Spec.run none (evs.map encodeEvent) = some none ∧
+    Impl.run none evs = some { text := ['a', '😀', 'é'], version := 2, isOpen := false } := by decide
 
 end TrustVerif.C14
